@@ -76,6 +76,40 @@ class _:
             raise Fail("shape", f"{case}")
         if not same(S2.full().to_sptensor().full().data, X):
             raise Fail("roundtrip", f"{case}")
+        # the same dense tensor held in other memory layouts: built from a C-ordered / transposed-view / strided array
+        # without copying, and grown into its shape by an assignment beyond the extent (the data array is then re-made)
+        variants = {}
+        Xc = np.ascontiguousarray(X)
+        for nm, arr in (("C-ordered", Xc), ("F-ordered", np.asfortranarray(X)), ("strided-view", np.repeat(Xc, 2, axis=0)[::2])):
+            try:
+                variants[nm] = ttb.tensor(arr, copy=False)
+            except (ValueError, AssertionError):
+                variants[nm] = ttb.tensor(arr)
+        if all(d >= 2 for d in shp) or len(shp) == 1 and shp[0] >= 2:
+            small = tuple(d - 1 for d in shp)
+            G = ttb.tensor(X[tuple(slice(0, d) for d in small)].copy())
+            last = tuple(d - 1 for d in shp)
+            G[last] = X[last] if X[last] != 0 else 9.0
+            for idx in all_subs(shp):
+                if any(i == d - 1 for i, d in zip(idx, shp)) and idx != last and X[idx] != 0:
+                    G[idx] = X[idx]
+            Xg = X.copy()
+            Xg[last] = X[last] if X[last] != 0 else 9.0
+            variants["grown"] = (G, Xg)
+        for nm, V in variants.items():
+            V, Xv = V if isinstance(V, tuple) else (V, X)
+            Sv = V.to_sptensor()
+            wf_sptensor(Sv, f"to_sptensor() of a {nm} tensor")
+            if tuple(Sv.shape) != shp or not same(den_sp(Sv), Xv):
+                raise Fail(f"dense->sparse:{nm}", f"{case}: {den_sp(Sv).tolist()} expected {Xv.tolist()}")
+            su, va = V.find()
+            back = np.zeros(shp)
+            if len(su):
+                back[tuple(np.asarray(su).T)] = np.asarray(va).ravel()
+            if not same(back, Xv):
+                raise Fail(f"find:{nm}", f"{case}")
+            if not same(np.asarray(V.full().data), Xv) or not same(np.asarray(V.double()), Xv):
+                raise Fail(f"dense->dense:{nm}", f"{case}")
 
 
 @check("c01.matricize", ["C01"], [
